@@ -520,6 +520,17 @@ def run(run: Run):
     run.guard('C14.R6', r6, run, rt)
     run.rule('C14.R7', 'exact scans answer at the first equal key; approximate scans keep the last key <= value and stop only at a greater key')
     run.guard('C14.R7', r7, run, rt)
+    # a function result depends on its arguments only: no runtime helper keeps results or other state between calls
+    from .common import borrow as _borrow
+    from . import c08 as _c08
+    from ..callgraph import get_callgraph as _gcg
+    from ..source import get_source as _gs
+    from ..runtime import get_runtime as _grt
+    run.rule('C14.R8', 'runtime helpers are pure functions of their arguments: no write effects, no value cache (shared with C08.R1/R4)')
+    _src = _gs()
+    _borrow(run, 'C14.R8', _c08.r1, _src, _grt(_src), _gcg(_src))
+    _borrow(run, 'C14.R8', _c08.r4, _src, _grt(_src))
+    run.floor('C14.R8', 50)
     run.floor('C14.R7', 8)
     run.floor('C14.R1', 10)
     run.floor('C14.R2', 12)
